@@ -225,6 +225,12 @@ func genC03(t *rapid.T, tier string) (*World, any) {
 		cw.W.Put("crs/regex-assembly/exclude/exd2.ra", "##!> define sfx es\nrun{{sfx}}\n")
 		cw.W.Put(p, cw.W.Files[p].Text+"##!> include-except excinc "+pick(t, []string{"exd1 exd2", "exd2 exd1", "exd1 exd2 exd1"}, "exdorder")+"\n")
 	}
+	// stored expressions whose names differ only in case, and a reference to a third spelling (which is simply unknown)
+	if chance(t, 8, "near-names") {
+		tgt := cw.Targets[0]
+		p := "crs/regex-assembly/" + tgt + ".ra"
+		cw.W.Put(p, cw.W.Files[p].Text+"##!> assemble\n  alpha\n  ##!=< Part\n  beta\n  ##!=< pArt\n  ##!=> "+pick(t, []string{"part", "PART", "Part ", "pArt"}, "nearref")+"\n  gamma\n##!<\n")
+	}
 	params := &C03Params{}
 	target := pick(t, cw.Targets, "target")
 	cmdKinds := []string{"generate", "generate-stdin", "update", "update-all", "compare", "compare-all", "compare-gh", "format", "format-all", "format-check"}
